@@ -749,7 +749,7 @@ static void do_op(char kind, uint32_t idx, unsigned flags)
 	}
 	if (verbose) {
 		printf("op %zu %s key=%s home=%u flags=%u -> %s\n", nlog - 1, opname, (kind == 'i' || kind == 'j' || kind == 'k') ? "INVALID" : fmt_key(key, kb, sizeof(kb)), home, flags,
-		       rc == vt->rc_success ? "SUCCESS" : rc == vt->rc_full ? "FULL/NOTFOUND(-1)" : rc == vt->rc_keyinval ? "KEYINVAL" : "?");
+		       rc == vt->rc_success ? "SUCCESS" : rc == vt->rc_keyinval ? "KEYINVAL" : rc != vt->rc_full ? "?" : (kind == 'p' || kind == 'i') ? "FULL" : "NOTFOUND");
 	}
 
 	/* read-only dump and slot level bookkeeping */
